@@ -395,6 +395,11 @@ def c20_cases(run):
     # they are answered from the document as it is after the notifications that precede them, however long that takes
     n_small = len(hists)
     hists.append(([f"O0={_hex(BIG_DOC)}", "H0", "U", "H0", "C0=R:0:0:0:0:" + _hex("// c\n"), "H0", "O1=" + _hex(C20_TEXTS[0]), "H1", "P1", "H0"], True))
+    # back-pressure on the broker's inbox: while the large document is analysed, more notifications than the inbox holds
+    # pile up for ANOTHER (small) document, then that document is closed and probed: every one of them takes effect,
+    # in order (a closed document is forgotten, the edits before the close are not lost)
+    small = "proc helper(i: int) {}\n"
+    hists.append(([f"O1={_hex(small)}", f"O0={_hex(BIG_DOC)}"] + ["C1=R:0:0:0:0:" + _hex(" ")] * 150 + ["X1", "P1", "H1", "O1=" + _hex(C20_TEXTS[1]), "P1"], True))
     slow = [i % 3 == 1 or n_hist <= i < n_small for i in range(len(hists))]
     # sequential in-process reference
     seq_in = "\n".join(f"SEQ {1 if d else 0} " + " ".join(t) for t, d in hists) + "\n"
